@@ -61,53 +61,3 @@ class GetLoadRequestsAccounting:
 
     def loop0_modifies(self, load_request_map, seq):
         return [contents(load_request_map), contents_where(lambda r: was_fresh(r) and r is not seq, 'list')]
-
-
-def load_of(command):
-    return command.process.rules.expected_load
-
-
-def same_pending_target(c1, c2):
-    """two distinct commands that both count for the same instance"""
-    return c1 is not c2 and pending(c1) and pending(c2) and c1.identifier == c2.identifier
-
-
-@contract('commander:ApplicationStartJobs.get_load_requests', props=['C04', 'C14'])
-class GetLoadRequestsPairs:
-    """Decision facet for the ACCUMULATION ('sum their expected load'): two distinct pending commands of the same target
-    weigh at least the sum of their loads - what refutes `max(load_list)` / 'keep the last one' in place of the sum,
-    which the per-command lower bound of GetLoadRequestsAccounting cannot."""
-    raises = ()
-    types = {'load_request_map': 'Dict[str, List[int]]'}
-
-    def modifies(self):
-        return []
-
-    def pre_loads_not_negative(self):
-        return loads_not_negative(self)
-
-    def post_pairs_current(self, result):
-        return forall(self.current_jobs, self.current_jobs, lambda c1, c2: implies(
-            same_pending_target(c1, c2), result[c1.identifier] >= load_of(c1) + load_of(c2)))
-
-    def post_pairs_current_planned(self, result):
-        return forall(self.current_jobs, lambda c1: forall(self.planned_jobs, lambda s: forall(self.planned_jobs[s], lambda c2: implies(
-            same_pending_target(c1, c2), result[c1.identifier] >= load_of(c1) + load_of(c2)))))
-
-    def loop0_inv(self, k, seq, load_request_map):
-        return (was_fresh(load_request_map)
-                and forall(load_request_map, lambda i: was_fresh(load_request_map[i]) and is_alloc(load_request_map[i])
-                           and load_request_map[i] is not seq)
-                and forall(load_request_map, load_request_map, lambda a, b: implies(a != b, load_request_map[a] is not load_request_map[b]))
-                and forall(load_request_map, lambda i: forall(load_request_map[i], lambda x: x >= 0))
-                and forall(int, lambda j: implies(0 <= j and j < k and pending(seq[j]),
-                                                  seq[j].identifier in load_request_map
-                                                  and load_of(seq[j]) in load_request_map[seq[j].identifier]))
-                and forall(int, int, lambda p, q: implies(
-                    0 <= p and p < q and q < k and pending(seq[p]) and pending(seq[q]) and seq[p].identifier == seq[q].identifier,
-                    exists(int, int, lambda a, b: 0 <= a and a < b and b < len(load_request_map[seq[p].identifier])
-                           and load_request_map[seq[p].identifier][a] == load_of(seq[p])
-                           and load_request_map[seq[p].identifier][b] == load_of(seq[q])))))
-
-    def loop0_modifies(self, load_request_map, seq):
-        return [contents(load_request_map), contents_where(lambda r: was_fresh(r) and r is not seq, 'list')]
